@@ -434,7 +434,7 @@ def case_float_single(res, ctx, case, t):
               {'value': got, 'ulp_off': d if d != float('inf') else 'nan'})
     elif want == 0.0 and math.copysign(1.0, got) != math.copysign(1.0, want):
         res.extra['zero_with_other_sign(not judged)'] += 1
-    res.outcome('float_single:%s:ulp=%s' % (facts['form'], d if d <= ULP_TOL else '>%d' % ULP_TOL))
+    res.outcome('float_single:exp-%s:point-%s:ulp=%s' % (facts['exp'], facts['point'], d if d <= ULP_TOL else '>%d' % ULP_TOL))
     ctx.sample({'section': 'float_single', 'text': t, 'parsed': got, 'float(text)': want, 'ulp_off': d})
 
 
@@ -1070,6 +1070,8 @@ def _plain(a):
 
 
 def run_shard(desc, deadline):
+    import time
+    t_cpu = time.process_time()     # reported only (evidence 'extra'); never used for a decision
     res = Result()
     i, n = desc['i'], desc['n']
     ctx = Ctx(res, SAMPLE_SECTIONS[i % len(SAMPLE_SECTIONS)])
@@ -1083,6 +1085,7 @@ def run_shard(desc, deadline):
             res.extra['outside_quantifier:' + arg] += 1
             continue
         run_case(res, ctx, sec, _plain(arg))
+    res.extra['cpu_seconds_all_shards(informational)'] += int(round(time.process_time() - t_cpu))
     return res
 
 
